@@ -30,12 +30,21 @@ Sentences of the statement ↦ theorems:
 * colour context never survives an operation, failing encodes included ↦ `C14_ctx_cleared`, `C14_lookup_pure`
 * registry constant after initialisation                             ↦ `C14_registry_stable`
 * the enumeration order of the colour *set* (PYTHONHASHSEED) is irrelevant ↦ `C14_hashseed`, `C14_hashseed_table`
+* "what a fresh interpreter produces" is ONE thing: the hash seed an interpreter draws at its start is part of
+  the world (`World.seed`, constant along every history: `C14_seed_unchanged`); the outcome of an encode does not
+  depend on it (`C14_seed_irrelevant`, `C14_seed_irrelevant_table`), so the outcome after any history in a process
+  with one seed is the outcome in a fresh process with any other (`C14_purity_any_interpreter`), for equal-valued
+  objects in processes with different seeds (`C14_equal_valued_any_seed`); the spanning heading rows follow the
+  user's `page_by` list, the subline heading the user's `subline_by` list (`C14_headings_user_order`);
+  the observation over several fresh interpreters reports nothing (`C14_seed_spec_of_model`)
 -/
 namespace Props.C14
 open Model.World Proofs.World
 
 /-- What every reachable world satisfies, relative to the world `w₀` the process started from. -/
 structure Inv (w₀ w : World) : Prop where
+  /-- the hash seed is the one the process started with -/
+  seed : w.seed = w₀.seed
   /-- the colour context is `None` between operations -/
   ctx : w.ctx = none
   /-- the registry is constant after its initialisation -/
@@ -48,6 +57,7 @@ structure Inv (w₀ w : World) : Prop where
   docs : ∀ n c d, aget n w.docs = some (c, d) → construct w₀.heap w₀.frames c = .ok d
 
 theorem C14_inv_fresh (w₀ : World) (hctx : w₀.ctx = none) (hdocs : w₀.docs = []) : Inv w₀ w₀ where
+  seed := rfl
   ctx := hctx
   reg := Or.inl rfl
   heap := rfl
@@ -67,7 +77,7 @@ theorem C14_inv_step (T : Table) (w₀ w : World) (op : Op) (h : Inv w₀ w) : I
     simp only [step]
     split
     · rename_i d hd
-      refine ⟨h.ctx, h.reg, h.heap, h.frames, ?_⟩
+      refine ⟨h.seed, h.ctx, h.reg, h.heap, h.frames, ?_⟩
       intro n' c' d' hget
       by_cases hn : n' = n
       · subst hn
@@ -80,16 +90,16 @@ theorem C14_inv_step (T : Table) (w₀ w : World) (op : Op) (h : Inv w₀ w) : I
   | encode n =>
     simp only [step]
     split
-    · exact ⟨rfl, hreg _ h.reg, h.heap, h.frames, h.docs⟩
+    · exact ⟨h.seed, rfl, hreg _ h.reg, h.heap, h.frames, h.docs⟩
     · exact h
   | encodeTwice n =>
     simp only [step]
     split
-    · refine ⟨rfl, ?_, h.heap, h.frames, h.docs⟩
+    · refine ⟨h.seed, rfl, ?_, h.heap, h.frames, h.docs⟩
       exact hreg _ (hreg _ h.reg)
     · exact h
   | drop n =>
-    refine ⟨h.ctx, h.reg, h.heap, h.frames, ?_⟩
+    refine ⟨h.seed, h.ctx, h.reg, h.heap, h.frames, ?_⟩
     intro n' c d hget
     exact h.docs n' c d (aget_filter_ne hget)
   | lookup c => exact h
@@ -112,7 +122,7 @@ theorem C14_purity_inv (T : Table) (w₀ w : World) (h : Inv w₀ w) (c : Ctor) 
   unfold encodeCtor
   rw [h.heap, h.frames]
   split
-  · exact encodeDoc_outcome T _ h.heap h.frames
+  · exact encodeDoc_outcome T _ h.seed h.heap h.frames
   · rfl
 
 /-- **Purity.** After any history, constructing and encoding a target gives exactly the outcome it
@@ -124,7 +134,7 @@ theorem C14_purity (T : Table) (w₀ : World) (hctx : w₀.ctx = none) (hdocs : 
   unfold encodeCtor
   rw [h.heap, h.frames]
   split
-  · exact encodeDoc_outcome T _ h.heap h.frames
+  · exact encodeDoc_outcome T _ h.seed h.heap h.frames
   · rfl
 
 /-- The same for a document object that was constructed at any earlier point of the history (and
@@ -136,12 +146,12 @@ theorem C14_purity_constructed (T : Table) (w₀ : World) (hctx : w₀.ctx = non
   have h := C14_inv_reachable T w₀ hctx hdocs ops
   have hc := h.docs n c d hlive
   simp only [step, findDoc, hlive, Option.map_some, encodeCtor, hc]
-  rw [encodeDoc_outcome T d h.heap h.frames]
+  rw [encodeDoc_outcome T d h.seed h.heap h.frames]
 
 /-- Encoding the same document again gives the same outcome, from any world whatsoever. -/
 theorem C14_encode_twice (T : Table) (w : World) (d : Doc) :
     (encodeDoc T (encodeDoc T w d).1 d).2 = (encodeDoc T w d).2 :=
-  encodeDoc_outcome T d rfl rfl
+  encodeDoc_outcome T d rfl rfl rfl
 
 theorem C14_twice_equal (T : Table) (w w' : World) (n : DocId) (a b : Outcome)
     (h : step T w (.encodeTwice n) = (w', .twice a b)) : a = b := by
@@ -254,13 +264,13 @@ def ctorObjs (c : Ctor) : List ObjId :=
 
 def ctorFrames (c : Ctor) : List FrameId := c.secs.map (·.1)
 
-/-- Two processes whose objects named by the call have equal values — whatever else exists in either —
-produce the same outcome for it. -/
-theorem C14_equal_valued (T : Table) (w w' : World) (c : Ctor)
+/-- Two processes (with one hash seed; for any two seeds see `C14_equal_valued_any_seed`) whose objects named by
+the call have equal values — whatever else exists in either — produce the same outcome for it. -/
+theorem C14_equal_valued (T : Table) (w w' : World) (c : Ctor) (hseed : w.seed = w'.seed)
     (hobj : ∀ i ∈ ctorObjs c, aget i w.heap = aget i w'.heap)
     (hfr : ∀ i ∈ ctorFrames c, aget i w.frames = aget i w'.frames) :
     (encodeCtor T w c).2 = (encodeCtor T w' c).2 :=
-  Proofs.World.encodeCtor_local T w w' c hobj hfr
+  Proofs.World.encodeCtor_local T w w' c hseed hobj hfr
 
 /-! ## enumeration order of the colour set -/
 
@@ -289,6 +299,97 @@ theorem C14_hashseed_table (used used' : List Color) (c : Color) (hperm : used.P
     simp [realTable, List.map_map, Function.comp_def]
   rw [this, C14_table_indices]
   exact List.nodup_range'
+
+/-! ## the hash seed of the interpreter -/
+
+/-- master indices of rtflite's table are pairwise different -/
+theorem C14_table_injective : ∀ a b n, master realTable a = some n → master realTable b = some n → a = b := by
+  apply Proofs.World.master_inj_of_nodup
+  have : realTable.map (·.2) = Generated.colorTable.map (·.idx) := by
+    simp [realTable, List.map_map, Function.comp_def]
+  rw [this, C14_table_indices]
+  exact List.nodup_range'
+
+/-- No operation changes the hash seed: it is drawn once, when the interpreter starts. -/
+theorem C14_seed_unchanged (T : Table) (w : World) (ops : List Op) : (run T w ops).1.seed = w.seed := by
+  induction ops generalizing w with
+  | nil => rfl
+  | cons op ops ih =>
+    simp only [run]
+    rw [ih]
+    cases op <;> simp only [step] <;> (try split) <;> rfl
+
+/-- **The encode outcome is independent of the hash-seed component of the world**: the same objects, frames
+and constructor call in a process that drew seed `s` instead give the same outcome (colour table, every colour
+index, widths, strategies, order of the heading rows, error kind) — where the master colour index is injective. -/
+theorem C14_seed_irrelevant (T : Table)
+    (hinj : ∀ a b n, master T a = some n → master T b = some n → a = b) (w : World) (s : Nat) (c : Ctor) :
+    (encodeCtor T { w with seed := s } c).2 = (encodeCtor T w c).2 :=
+  Proofs.World.encodeCtor_local_inj T hinj _ _ c (fun _ _ => rfl) (fun _ _ => rfl)
+
+/-- … which rtflite's table is. -/
+theorem C14_seed_irrelevant_table (w : World) (s : Nat) (c : Ctor) :
+    (encodeCtor realTable { w with seed := s } c).2 = (encodeCtor realTable w c).2 :=
+  C14_seed_irrelevant realTable C14_table_injective w s c
+
+/-- The same for a document object that exists already. -/
+theorem C14_seed_irrelevant_doc (w : World) (s : Nat) (d : Doc) :
+    (encodeDoc realTable { w with seed := s } d).2 = (encodeDoc realTable w d).2 :=
+  Proofs.World.encodeDoc_outcome_inj realTable C14_table_injective d rfl rfl
+
+/-- **Purity against ANY fresh interpreter.** After any history in a process that drew seed `s`, constructing
+and encoding a target gives exactly the outcome of a fresh process that drew seed `s'` — "a fresh interpreter"
+is every fresh interpreter. -/
+theorem C14_purity_any_interpreter (w₀ : World) (hctx : w₀.ctx = none) (hdocs : w₀.docs = [])
+    (s s' : Nat) (ops : List Op) (c : Ctor) :
+    (encodeCtor realTable (run realTable { w₀ with seed := s } ops).1 c).2
+      = (encodeCtor realTable { w₀ with seed := s' } c).2 := by
+  rw [C14_purity realTable { w₀ with seed := s } hctx hdocs ops c,
+    C14_seed_irrelevant_table w₀ s c, C14_seed_irrelevant_table w₀ s' c]
+
+/-- Equal-valued objects in two processes with whatever hash seeds: the same outcome. -/
+theorem C14_equal_valued_any_seed (w w' : World) (c : Ctor)
+    (hobj : ∀ i ∈ ctorObjs c, aget i w.heap = aget i w'.heap)
+    (hfr : ∀ i ∈ ctorFrames c, aget i w.frames = aget i w'.frames) :
+    (encodeCtor realTable w c).2 = (encodeCtor realTable w' c).2 :=
+  Proofs.World.encodeCtor_local_inj realTable C14_table_injective w w' c hobj hfr
+
+/-- The spanning heading rows of a section follow the body's `page_by` list as the user wrote it and the subline
+heading its `subline_by` list — whatever the hash seed, the registry and the history. -/
+theorem C14_headings_user_order (w : World) (d : Doc) (i : Nat) (s : FrameId × Comp) (p : SecProj) (o : Obj)
+    (ho : s.2.get w.heap = some o) (h : encodeSec w d i s = .ok p) :
+    p.headings = (if o.newPage && o.pagebyColumn then [] else o.pageBy) ∧ p.sublines = o.sublineBy := by
+  unfold encodeSec at h
+  rw [ho] at h
+  split at h
+  · rename_i f o' hf ho'
+    cases ho'
+    split at h
+    · cases h
+    · split at h
+      · cases h
+      · simp only at h
+        repeat' split at h
+        all_goals first
+          | (cases h; exact ⟨rfl, rfl⟩)
+          | cases h
+  · cases h
+
+/-- The observation of several fresh interpreters (`Model.World.seedViolations`, the oracle the harness
+evaluates on the implementation's fresh-interpreter outputs under several hash seeds) reports nothing on the
+model, for any reference seed and any other seeds. -/
+theorem C14_seed_spec_of_model (w₀ : World) (s : Nat) (seeds : List Nat) (c : Ctor) :
+    seedViolations (encodeCtor realTable { w₀ with seed := s } c).2 (modelFreshOutcomes realTable w₀ seeds c) = [] := by
+  unfold seedViolations modelFreshOutcomes
+  have : (seeds.map (fun s' => (encodeCtor realTable { w₀ with seed := s' } c).2)).all
+      (fun o => decide (o = (encodeCtor realTable { w₀ with seed := s } c).2)) = true := by
+    rw [List.all_eq_true]
+    intro o ho
+    obtain ⟨s', _, rfl⟩ := List.mem_map.mp ho
+    rw [C14_seed_irrelevant_table w₀ s' c, C14_seed_irrelevant_table w₀ s c]
+    simp
+  rw [this]
+  rfl
 
 /-! ## witnesses: the model tells the historical behaviours apart -/
 
@@ -328,6 +429,19 @@ theorem C14_legacy_encode_witness :
       ∧ (Legacy.encodeDoc tbl (Legacy.encodeDoc tbl w1 dBad).1 dMulti).2 ≠ (Legacy.encodeDoc tbl w1 dMulti).2
       ∧ (encodeDoc tbl (encodeDoc tbl w1 dBad).1 dMulti).2 = (encodeDoc tbl w1 dMulti).2 := by
   refine ⟨_, _, rfl, rfl, ?_⟩
+  decide
+
+/-- a listing body: `subline_by=["site"], page_by=["region", "arm"]` -/
+private def listing : Obj := { body0 with sublineBy := ["site".toList], pageBy := ["region".toList, "arm".toList] }
+
+/-- The seed component is not idle: two interpreters enumerate one and the same set of two column names in
+different orders, so a heading order taken from `set(page_by) - set(subline_by)` instead of the list (the class
+of change the harness looks for by encoding under several hash seeds) gives different documents in different
+interpreters — while the model's heading order is the user's list under every seed. -/
+theorem C14_seed_witness :
+    enumSet 0 (listing.pageBy.filter (fun c => !listing.sublineBy.contains c))
+      ≠ enumSet 4 (listing.pageBy.filter (fun c => !listing.sublineBy.contains c))
+    ∧ headingCols listing = ["region".toList, "arm".toList] := by
   decide
 
 /-- Non-vacuity: a history with a shared body, a failing encode, an encode-twice and a drop, whose
